@@ -671,6 +671,7 @@ def execute_plan(ctx, rng, plan):
                 next(answers)
             continue
         # ---- well-formed messages
+        edited = []
         for d, a, m in entry['wf']:
             a_build, a_rt = next(answers), next(answers)
             dom = in_domain(d, m)
@@ -707,6 +708,30 @@ def execute_plan(ctx, rng, plan):
                     ctx.count('wf:stale-type-skipped')        # MsgType of an earlier dictionary still in Message.Def
                 elif mine != theirs:
                     ctx.disagree(f'fix.rt: model {theirs[:160]} vs implementation {mine[:160]}', rep)
+            # ---- the same object, edited in place after it has been encoded, must encode what it holds NOW (group = count field +
+            # instances in dictionary order of the message as it is, not as it was when first written)
+            if dom and 'bytes' in r and rng.random() < 0.5:
+                try:
+                    m2 = fc.edit_in_place(rng, built, d, m, msg)
+                    if m2 is not None:
+                        ctx.count('wf:edited-in-place')
+                        want = fc.ref_encode(d, m2)
+                        with fc.time_limit(20):
+                            got2 = bytes(msg.to_bytes()[1])
+                        if got2 != want:
+                            report(ctx, 're-encoding a message after a field of a group instance was changed in place does not give the '
+                                        f'layout of its current values: {got2[:60]!r} vs {want[:60]!r}',
+                                   dict(rt_replay_dict(mdefs, d, m2), kind='rt-inplace', before=sx(fc.msg_sx(m)), finding='stale-encoding'))
+                        edited.append((d, m2, got2, rt_replay_dict(mdefs, d, m2)))
+                except Exception as e:  # noqa
+                    report(ctx, f'editing a group instance in place and re-encoding raised {err_name(e)}', dict(rep, finding='inplace-raises'))
+        if edited and ctx.driver.available:
+            reg = sx([fc.mdef_sx(x) for x in mdefs])
+            ans = ctx.driver.ask([f'fix.rt {reg} {sx(fc.mdef_sx(d))} {sx(fc.msg_sx(m2))}' for d, m2, _, _ in edited])
+            for (d, m2, got2, rep2), a2 in zip(edited, ans):
+                parts = a2.split(' ')
+                if parts[0] == 'ok' and parts[1] != sx(got2):
+                    ctx.disagree(f'fix.rt after an in-place edit: model bytes {parts[1][:80]} vs implementation {sx(got2)[:80]}', rep2)
         # ---- out-of-domain assignments
         follow_up = []
         for d, kind, a in entry['mal']:
@@ -883,6 +908,26 @@ def replay(ctx, path):
             print('model    :', a[:400])
             if model_line_without_eqd(a) != impl_line(by_name, res):
                 ctx.disagree('fix.rt differs', rep)
+    elif kind == 'rt-inplace':
+        mdefs, d, m2 = case_from_replay(rep)
+        before = fc.msg_from_parsed(parse_sx(rep['before'])[0])
+        mdefs, d = rename(mdefs, d)
+        built = fc.build_dictionary(mdefs)
+        got = impl_build(built, d, before)
+        ctx.case(rep['msg'][:300])
+        if got[0] != 'ok':
+            report(ctx, f'assigning raised {got[1]}', dict(rep, finding='build-raises'))
+            return
+        msg = got[1]
+        first = bytes(msg.to_bytes()[1])
+        fc.apply_difference(built, d, before, m2, msg)
+        second, want = bytes(msg.to_bytes()[1]), fc.ref_encode(d, m2)
+        print('first encoding        :', first)
+        print('after in-place edit   :', second)
+        print('layout of its values  :', want)
+        if second != want:
+            report(ctx, 're-encoding a message after a field of a group instance was changed in place does not give the layout of its '
+                        'current values', dict(rep))
     elif kind == 'build':
         mdefs = [fc.mdef_from_parsed(parse_sx(x)[0]) for x in rep['reg']]
         d = fc.mdef_from_parsed(parse_sx(rep['mdef'])[0])
